@@ -125,7 +125,7 @@ impl Property for P {
     }
     fn rule(&self) -> String {
         "Generated: (one of 36 sealing suites, mode, ikmR, ikmS, psk, psk_id, info, RNG stream, 1..=12 messages with edge-biased pt/aad lengths incl. empty and block-straddling, per message alloc/in-place choice on each side; key pairs from the reference or from the library's own derive_keypair). \
-         Swept: all 36x4 suite/mode cells with a 4-message script mixing both APIs. \
+         Swept: all 36x4 suite/mode cells with a 4-message script mixing both APIs, plus the empty PSK bundle in every Psk/AuthPsk cell (the library accepts it; 15% of the generated cases use it too). \
          Oracle: the receiver built from (enc, skR, info, matching mode) opens message i, in order, to exactly pt_i; |ct| = |pt| + Nt; in-place keeps the length and returns an Nt-byte tag. \
          Non-trivial: (>=2 messages and one of length 0 or not a multiple of 16) or a non-Base mode."
             .into()
@@ -137,8 +137,16 @@ impl Property for P {
         let big = tier.pick(5000usize, 70000usize);
         let m = (prop_oneof![8 => gen::bytes(300), 1 => gen::bytes(big)], gen::bytes(300), any::<bool>(), any::<bool>())
             .prop_map(|(pt, aad, seal_in_place, open_in_place)| MsgApi { pt, aad, seal_in_place, open_in_place });
-        (gen::session_sealing(), prop::bool::weighted(0.3), proptest::collection::vec(m, 1..=12))
-            .prop_map(|(sess, lib_keys, msgs)| Case { sess, lib_keys, msgs })
+        // the library also accepts the empty bundle in Psk/AuthPsk mode: part of "all psk, psk_id
+        // byte strings including empty ones"
+        (gen::session_sealing(), prop::bool::weighted(0.3), proptest::collection::vec(m, 1..=12), prop::bool::weighted(0.15))
+            .prop_map(|(mut sess, lib_keys, msgs, empty_bundle)| {
+                if empty_bundle {
+                    sess.psk = Bytes::default();
+                    sess.psk_id = Bytes::default();
+                }
+                Case { sess, lib_keys, msgs }
+            })
             .boxed()
     }
     fn cases(&self, tier: Tier) -> u32 {
@@ -149,6 +157,12 @@ impl Property for P {
         for (s, m) in gen::all_cells(&Suite::sealing36()) {
             let mk = |n: usize, a: usize, si: bool, oi: bool| MsgApi { pt: Bytes(gen::fill(n, 5, n as u64)), aad: Bytes(gen::fill(a, 5, 77)), seal_in_place: si, open_in_place: oi };
             cells.push(Case { sess: gen::cell_session(s, m, 1), lib_keys: m % 2 == 1, msgs: vec![mk(29, 7, false, false), mk(0, 16, true, false), mk(17, 0, false, true), mk(64, 3, true, true)] });
+            if m & 1 != 0 {
+                let mut e = gen::cell_session(s, m, 3);
+                e.psk = Bytes::default();
+                e.psk_id = Bytes::default();
+                cells.push(Case { sess: e, lib_keys: false, msgs: vec![mk(0, 0, false, false), mk(5, 1, true, true), mk(16, 0, false, true)] });
+            }
         }
         vec![("suite_x_mode_cells".into(), cells)]
     }
